@@ -636,6 +636,8 @@ def r8_prerequisites(ctx):
              (c02.r6_elimination, lambda o: True), (c09.r2_writes_guarded, lambda o: ".stv.STV." in o.function),
              (c09.r7_no_shared_mutable_state, lambda o: o.status != "DISCHARGED" or "mutate" in o.construct),
              (c10.r2_only_in_tie, lambda o: True),
+             # at most m candidates reach the quota only while no vote is created: each winner's own pile through the transfer rule once
+             (c02.r8_transfer_wiring, lambda o: "transfer" in o.construct or "carried over" in o.construct),
              (c13.r3_alaska, lambda o: "get_profile" in o.construct or "stage 1" in o.construct or "STV" in o.construct)]
     n = 0
     for fn, keep in picks:
